@@ -42,6 +42,7 @@ class Ctx(object):
         self.spaces = {}                            # local name -> canonical space expression
         self.sdefs = {}                             # scalar local -> defining expression (inlined)
         self.loop_scalars = set(cfg.get('loop_scalars', ()))   # scalars recomputed in every iteration (parameters)
+        self.version = {}                           # loop scalar -> number of updates so far in the loop body
         self.normdefs = {}                          # scalar local d -> vector name v  for  d = -v.norm() ** 2
         self.ranges = {}                            # rng -> 'range(length)'
         self.pre, self.body = [], None
@@ -67,6 +68,11 @@ def pick(ctx, e):
             ctx.err(e, 'conditional expression on an unconfigured test')
         e = e.body if ctx.flags[t] else e.orelse
     return e
+
+
+def vers(ctx, name):
+    """a loop scalar updated k times so far in the loop body is the parameter name followed by k primes"""
+    return name + "'" * ctx.version.get(name, 0)
 
 
 def is_idx(ctx, n):
@@ -100,7 +106,7 @@ def sx(ctx, e):
     if isinstance(e, ast.Name):
         if e.id in ctx.sdefs:
             return sx(ctx, ctx.sdefs[e.id])
-        return '(SPar %s)' % cstr(e.id)
+        return '(SPar %s)' % cstr(vers(ctx, e.id))
     if isinstance(e, ast.Subscript):
         return '(SPar %s)' % cstr(ast.unparse(e))
     if isinstance(e, ast.UnaryOp):
@@ -131,7 +137,8 @@ def op_symbol(ctx, f):
         base = op_symbol(ctx, f.func)
         if base is None or not base.endswith('.proximal'):
             return None
-        return '%s(%s)' % (base, ast.unparse(pick(ctx, f.args[0])))
+        a = pick(ctx, f.args[0])
+        return '%s(%s)' % (base, vers(ctx, a.id) if isinstance(a, ast.Name) else ast.unparse(a))
     return None
 
 
@@ -272,10 +279,11 @@ def scalar_only(ctx, v):
     if isinstance(v, ast.Constant):
         return isinstance(v.value, (int, float)) and not isinstance(v.value, bool)
     if isinstance(v, ast.Name):
-        return v.id in ctx.loop_scalars
+        return v.id in ctx.loop_scalars or v.id in ctx.scalars
     if isinstance(v, ast.BinOp) and isinstance(v.op, (ast.Add, ast.Sub, ast.Mult, ast.Div, ast.Pow)):
         return scalar_only(ctx, v.left) and scalar_only(ctx, v.right)
-    if isinstance(v, ast.Call) and ast.unparse(v.func) == 'np.sqrt' and len(v.args) == 1 and not v.keywords:
+    if isinstance(v, ast.Call) and ast.unparse(v.func) in ('np.sqrt', 'float') and len(v.args) == 1 \
+            and not v.keywords:
         return scalar_only(ctx, v.args[0])
     return False
 
@@ -366,6 +374,10 @@ def stmt(ctx, s, out, depth):
             emit('(OFor %s %s_inner%d)' % (cstr(s.target.id), ctx.name, len(ctx.inner)))
             return
         ctx.err(s, 'nested loop')
+    if isinstance(s, ast.AugAssign) and in_loop and isinstance(s.target, ast.Name) \
+            and s.target.id in ctx.loop_scalars and scalar_only(ctx, s.value):
+        ctx.version[s.target.id] = ctx.version.get(s.target.id, 0) + 1
+        return                                   # tau *= theta: scalar recursion, values are parameters
     if isinstance(s, ast.AugAssign):
         t = vname(ctx, s.target)
         if t is not None and isinstance(s.op, (ast.Add, ast.Sub, ast.Mult, ast.Div)):
@@ -413,6 +425,8 @@ def stmt(ctx, s, out, depth):
                 # t, t_old = (1 + np.sqrt(1 + 4 * t ** 2)) / 2, t   |   alpha = (t_old - 1) / t :
                 # a purely scalar recursion over configured loop scalars; its values are parameters
                 if all(i in ctx.loop_scalars for i in ids) and scalar_only(ctx, v):
+                    for i in ids:
+                        ctx.version[i] = ctx.version.get(i, 0) + 1
                     return
                 if len(ids) == 1 and is_scalar(ctx, v):
                     ctx.sdefs[ids[0]] = pick(ctx, v)
@@ -543,7 +557,8 @@ CONFIG = {
         operators=['f', 'phi', 'g', 'K'], flags={}),
     'pdhg': dict(
         file=N + 'primal_dual_hybrid_gradient.py',
-        scalars=['tau', 'sigma', 'niter', 'theta', 'theta_in', 'gamma_primal', 'gamma_dual'],
+        scalars=['tau', 'sigma', 'niter', 'theta', 'theta_in', 'gamma_primal', 'gamma_dual', 'gamma_primal_in',
+                 'gamma_dual_in'],
         vectors=['x'], optional=['x_relax', 'y'], operators=['f', 'g', 'L'],
         flags={'callback is not None': True, 'gamma_primal is not None': False, 'gamma_dual is not None': False,
                'gamma_primal is not None and gamma_dual is not None': False,
@@ -600,6 +615,12 @@ def _variant(base, fn=None, **flags):
     return cfg
 
 
+CONFIG['pdhg_accel_primal'] = dict(_variant('pdhg', **{'gamma_primal is not None': True, 'proximal_constant': False,
+                                                        'not proximal_constant': True}),
+                                   loop_scalars=['tau', 'sigma', 'theta'])
+CONFIG['pdhg_accel_dual'] = dict(_variant('pdhg', **{'gamma_dual is not None': True, 'proximal_constant': False,
+                                                      'not proximal_constant': True}),
+                                 loop_scalars=['tau', 'sigma', 'theta'])
 CONFIG['landweber_noproj'] = _variant('landweber', **{'projection is not None': False})
 CONFIG['kaczmarz_noproj'] = _variant('kaczmarz', **{'projection is not None': False})
 CONFIG['kaczmarz_cbinner'] = _variant('kaczmarz', **{CB_IN: True, CB_OUT: False})
